@@ -86,6 +86,21 @@ def generate(repo, ws, write_if_changed):
             raise sl.SliceError(f"fn {need} not found in header_ex.rs")
     emit("header_ex_c30.rs", slice_file(repo, "node/src/p2p/header_ex.rs",
                                         [dict(kind="fn", name=n) for n in parse_fns]))
+    # chunked reading (C30, thorough tier): EVERY column-0 free fn of header_ex.rs (sync or async, so
+    # that helpers introduced by a refactor are sliced too) and the request limits. A slicing failure
+    # here must not take the other vh-node checks down: it becomes a compile error of module c30r only.
+    hx_free = []
+    for m in _re.finditer(r"^(?:pub(?:\([^)]*\))?\s+)?(?:async\s+)?fn\s+(\w+)", hx_text, _re.M):
+        if m.group(1) not in hx_free:
+            hx_free.append(m.group(1))
+    try:
+        if "read_up_to" not in hx_free:
+            raise sl.SliceError("fn read_up_to not found in header_ex.rs")
+        emit("header_ex_c30_read.rs", slice_file(repo, "node/src/p2p/header_ex.rs",
+             [dict(kind="const", name=c) for c in ("REQUEST_SIZE_LIMIT", "REQUEST_TIME_LIMIT")] +
+             [dict(kind="fn", name=n) for n in hx_free]))
+    except sl.SliceError as e:
+        emit("header_ex_c30_read.rs", "compile_error!(%s);\n" % __import__("json").dumps("slice failed: " + str(e)))
     emit("header_session_c26.rs",
          slice_file(repo, "node/src/p2p/header_session.rs", [
              dict(kind="const", name="MIN_AMOUNT_PER_REQ"),
